@@ -22,6 +22,7 @@ import itertools
 import threading
 import contextlib
 import subprocess
+import multiprocessing as mp
 
 from .remote import send_msg, recv_msg, set_keepalive, set_linger, default_port, ConnectionClosedError
 from .worker import WorkerTerminatedError
@@ -206,6 +207,11 @@ class RemoteServerProcess(ProcessWorker):
 
     def _start(self):
         super()._start()
+        ready = mp.connection.wait([self._comms.parent_end, self._child.sentinel])
+        if self._comms.parent_end not in ready:
+            # the server process died before it could report its address
+            self._addr = None
+            return
         self._addr = self._comms.parent_end.recv()
         if not isinstance(self._addr[0], str):
             self._result = self._addr
